@@ -28,6 +28,9 @@ CHECKS = {
     "C06": dict(cat="exploration", tech="invariant monitor (range, monotonicity, tie equality, permutation equivariance) on PEP / q-value estimators and on result-file PEP columns",
                 text="Every selectable PEP and q-value algorithm is run on unsorted mixtures and on permutations of them; output files of assign_confidence are checked per algorithm.",
                 note="no reference PEP values asserted; equivariance of interpolating q-estimators demanded on tie-free input only", ref="5/C06"),
+    "C08": dict(cat="exploration", tech="metamorphic monitor over interpreter sessions: same seeded run under PYTHONHASHSEED / worker-count / in-process repeats, sha256 digests of fold assignment, coefficients, scores, result files; CLI save_models / load_models in every permutation",
+                text="Groups of runs that must be bit-identical are executed in fresh interpreters; digests are compared without tolerance; all model permutations are fed back through the CLI.",
+                note="np.random.seed(seed) counted as part of the fixed seed on the API path", ref="5/C08"),
     "C10": dict(cat="exploration", tech="differential monitor on read_pin against the generator's ground truth (all feature counts 1..60, chunk sizes, casing, NaN placement, formats, workers) + rejection monitor",
                 text="Tables are generated from a kept structure; the returned dataset is compared field by field; every feature count 1..60 is swept at the default column chunk size in both formats.",
                 note="charge* feature membership not judged", ref="5/C10"),
